@@ -35,7 +35,53 @@ def root_name(e):
     return e.id if isinstance(e, ast.Name) else None
 
 
-def nonlocal_writes(fi, allow_self_in=('__init__', '__attrs_post_init__', '_init_from_arrays')):
+FRESH_BUILTINS = {'dict', 'list', 'set', 'tuple', 'bytearray', 'frozenset', 'float', 'int', 'str', 'sorted', 'range'}
+
+
+def fresh_names(fi, model=None):
+    """Locals every assignment of which binds a freshly created object (constructor call of a package class, builtin
+    container, literal display, comprehension, numpy allocation).  Loop variables, unpacked values and results of other
+    calls may be pre-existing objects and are NOT fresh."""
+    status = {}
+    for s in stmts_in(fi.node.body):
+        pairs = []
+        if isinstance(s, ast.Assign):
+            for t in s.targets:
+                if isinstance(t, ast.Name):
+                    pairs.append((t.id, s.value))
+                elif isinstance(t, (ast.Tuple, ast.List)):
+                    for e in t.elts:
+                        if isinstance(e, ast.Name):
+                            pairs.append((e.id, None))
+        elif isinstance(s, ast.AnnAssign) and isinstance(s.target, ast.Name) and s.value is not None:
+            pairs.append((s.target.id, s.value))
+        elif isinstance(s, (ast.For, ast.AsyncFor)):
+            for n in ast.walk(s.target):
+                if isinstance(n, ast.Name):
+                    pairs.append((n.id, None))
+        elif isinstance(s, (ast.With, ast.AsyncWith)):
+            for it in s.items:
+                if it.optional_vars is not None:
+                    for n in ast.walk(it.optional_vars):
+                        if isinstance(n, ast.Name):
+                            pairs.append((n.id, None))
+        for name, v in pairs:
+            ok = False
+            if isinstance(v, (ast.List, ast.Dict, ast.Set, ast.Tuple, ast.ListComp, ast.DictComp, ast.SetComp, ast.Constant, ast.JoinedStr, ast.BinOp)):
+                ok = True
+            elif isinstance(v, ast.Call):
+                f = u(v.func)
+                if f in FRESH_BUILTINS or f.startswith(('np.', 'numpy.')):
+                    ok = True
+                elif model is not None and (model.resolve_call(fi, v) in model.classes):
+                    ok = True
+                elif f[:1].isupper() and '.' not in f:
+                    ok = True          # constructor-style call of a class imported from elsewhere
+            status[name] = status.get(name, True) and ok
+    return {n for n, ok in status.items() if ok}
+
+
+def nonlocal_writes(fi, allow_self_in=('__init__', '__attrs_post_init__', '_init_from_arrays'), model=None, strict=False):
     """[(node, description)] for writes whose target is not a function-local object:
     attribute / subscript stores and mutating method calls rooted at a parameter or a global; global statements."""
     locs, globs = local_names(fi)
@@ -50,6 +96,8 @@ def nonlocal_writes(fi, allow_self_in=('__init__', '__attrs_post_init__', '_init
                 if isinstance(t, ast.Name):
                     fresh_locals.add(t.id)
 
+    fresh = fresh_names(fi, model) if strict else None
+
     def is_local_root(r):
         if r is None:
             return True
@@ -59,6 +107,8 @@ def nonlocal_writes(fi, allow_self_in=('__init__', '__attrs_post_init__', '_init
             return False
         if r in globs:
             return False
+        if strict:
+            return r in fresh
         return r in locs
 
     for g in globs:
